@@ -1,4 +1,5 @@
 import Props.C03
+import Props.C18
 import SdxProofs.Relabel
 import SdxProofs.HarvestRelabel
 set_option linter.unusedSectionVars false
@@ -85,5 +86,18 @@ theorem C05_buckets_equal (E : Env α) (c c' : FCtx α) (ρ : Nat → Nat) (S : 
   refine ⟨bs.map (relabCell ρ), ?_, ?_⟩
   · rw [harvest_relabel E h hρ t hg stream, hr]; rfl
   · rw [List.map_map]; rfl
+
+end
+
+section
+variable {α : Type} [Field α] [LinearOrder α] [IsStrictOrderedRing α] [FloorRing α] [Inhabited α]
+
+/-- T05.b for the trees a forest hands out (over exact arithmetic): any forest tree whose columns lie in `S` meets the
+requirement `HGood S` of the position-independence theorems, sub-nodes included. -/
+theorem C05_forest_tree_good (E : Env α) (inp : ForestIn α) (F : Forest α) (hinit : Forest.init E inp = .ok F)
+    (hn : 0 < inp.raw.size) (fuel : Nat) (comb : List Nat) (hk : 1 ≤ comb.length) (t : Node α)
+    (ht : F.tree? E fuel comb = some t) (S : List Nat) (hS : ∀ j ∈ comb, j ∈ S) : HGood S t := by
+  obtain ⟨⟨hc, _, hsh⟩, _⟩ := C18_forest_tree E inp F hinit hn fuel comb t hk ht
+  exact HGood.of_shape hsh (by rw [hc]; exact hS)
 
 end
